@@ -83,9 +83,7 @@ def replay_check(inputs, ob):
     sv = inputs["server_version"]
     if not py_canon(sv):
         return ReplayResult(False, "model server version not canonical")
-    s = srv.RpcServer.__new__(srv.RpcServer)
-    s._protocol_version = sv
-    s._protocol_version_parts = tuple(int(x) for x in sv.split("."))
+    s = _real_server(sv)  # built by the real constructor, so every attribute the method may use exists
     cb = inputs.get("client")
     if inputs.get("client_present") is False:
         cb = None
@@ -109,6 +107,71 @@ def replay_check(inputs, ob):
     if exc is not None and sv not in str(exc):
         problems.append("message does not name the server version")
     return ReplayResult(bool(problems), f"server={sv!r} client={cb!r}: " + "; ".join(problems))
+
+
+def _real_server(sv):
+    """A real RpcServer whose Protocol declares protocol_version = sv (constructor run for real)."""
+    from typing import ClassVar, Protocol
+
+    from vgi_rpc.rpc import RpcServer
+
+    P = type("P", (Protocol,), {"__annotations__": {"protocol_version": ClassVar[str]}, "protocol_version": sv, "ping": lambda self: 1})
+    P.ping.__annotations__ = {"return": int}
+
+    class Impl:
+        def ping(self) -> int:
+            return 1
+
+    return RpcServer(P, Impl())
+
+
+def search_check(ob, seed):
+    """Native hunt on a real, constructor-built server: a corpus of canonical / malformed client values and
+    random strings, each presented TWICE in a row (a refused client that retries) and interleaved with good ones."""
+    import random
+
+    rnd = random.Random(seed)
+    for sv in ("1.2.3", "0.0.0", "10.2.0"):
+        try:
+            server = _real_server(sv)
+        except Exception as e:  # constructor itself broken
+            return {"server_version": sv}, ReplayResult(True, f"RpcServer(protocol_version={sv!r}) raised {type(e).__name__}: {e}")
+        maj, mnr, _ = sv.split(".")
+        corpus = [None, b"", sv.encode(), f"{maj}.{mnr}.99".encode(), f"{maj}.{mnr}.03".encode(), f"{maj}.{mnr}.00".encode(), f"{maj}.{mnr}.٣".encode(),
+                  f"{maj}.{mnr}.３".encode(), f"{maj}.{mnr}.³".encode(), f"{maj}.{mnr}.1\n".encode(), f" {sv}".encode(), f"{sv}-rc1".encode(), f"{sv}+b".encode(),
+                  f"0{maj}.{mnr}.0".encode(), f"{maj}.0{mnr}.0".encode(), f"{int(maj)+1}.{mnr}.0".encode(), f"{maj}.{int(mnr)+1}.0".encode(), b"banana", b"\xff\xfe", b"1.2", b"1.2.3.4"]
+        for _ in range(60):
+            corpus.append(bytes(rnd.choice(b"0123456789.. -+a\n") for _ in range(rnd.randint(0, 7))))
+        seq = []
+        for v in corpus:
+            seq += [v, v, sv.encode()]
+        for v in seq:
+            want_ok = False
+            if v is not None:
+                try:
+                    cs = v.decode()
+                    want_ok = py_canon(cs) and cs.split(".")[:2] == [maj, mnr]
+                except UnicodeDecodeError:
+                    want_ok = False
+            try:
+                server._check_protocol_version(v)
+                got_ok, exc = True, None
+            except ProtocolVersionError as e:
+                got_ok, exc = False, e
+            except Exception as e:
+                return {"server_version": sv, "client": v}, ReplayResult(True, f"_check_protocol_version({v!r}) raised {type(e).__name__}: {e}")
+            if got_ok != want_ok:
+                return {"server_version": sv, "client": v}, ReplayResult(True, f"server {sv}: client value {v!r} {'accepted' if got_ok else 'refused'} (expected {'accept' if want_ok else 'refuse'}) in the sequence of repeated presentations")
+            if exc is not None and (sv not in str(exc) or (v is not None and want_ok is False and py_canon(_try_decode(v)) and _try_decode(v) not in str(exc))):
+                return {"server_version": sv, "client": v}, ReplayResult(True, f"server {sv}: refusal of {v!r} does not name both versions: {str(exc)[:200]!r}")
+    return None
+
+
+def _try_decode(b):
+    try:
+        return b.decode()
+    except Exception:
+        return ""
 
 
 MAJ = z3.Function("version_major", z3.StringSort(), z3.IntSort())
@@ -142,7 +205,7 @@ def matches(client_t, sv):
     return And(SBool(z3.InRe(client_t, CANON)), SInt(MAJ(client_t)) == sa, SInt(MIN(client_t)) == sb)
 
 
-@unit("C09.O3 _check_protocol_version accepts exactly matching major.minor", targets=["vgi_rpc/rpc/_server.py::RpcServer._check_protocol_version"], replay=replay_check, min_obligations=8)
+@unit("C09.O3 _check_protocol_version accepts exactly matching major.minor", targets=["vgi_rpc/rpc/_server.py::RpcServer._check_protocol_version"], replay=replay_check, search=search_check, min_obligations=8)
 def check_version(S):
     install_parse_contract(S)
     sv = S.str("server_version")
